@@ -17,7 +17,10 @@ META = {
                   "with the exact summary after every event; they are replayed into TearSheetGenerator, "
                   "TradingSummaryGenerator and, as fills, into a real Engine whose trading summary is generated, for the "
                   "risk-free return and the interval (Daily, Annual252, Annual365, custom TimeDelta) the behaviour names. Trusted: TLC, spec/Rational.tla, the projection functions in harness/src/stats_driver.rs (bins c16/c17/c18), the assumptions listed in the evidence file.",
-    "technique": "TLC exhaustive + simulation (Pattern B: exact rationals replayed into the implementation)",
+    "technique": "TLA+ spec (Stats.tla: tear sheet, returns summaries and the ratio figures as exact rationals / squared laws) model-checked "
+                 "with TLC; TLC-generated histories with the expected figures after every event (enumerated + simulated, incl. late exits, "
+                 "resets, store / restore, balances with a free part) replayed into TearSheetGenerator, TradingSummaryGenerator and a real "
+                 "Engine and compared field by field",
 }
 ASSUMPTIONS = [
     "a closed position is (pnl, cost = price_entry_average * quantity_abs_max > 0); the harness realises it with varying "
